@@ -83,24 +83,30 @@ def go_source(pkgname, decls):
 
 
 def gen_tree(rng):
-    """[{path, name, files: [{name, decls}]}]: 14 flat packages, one wide package, two recursive roots."""
+    """[{path, name, files: [{name, decls}]}]: 14 flat packages, one wide package, two recursive roots.
+    Every package has two or three source files (c_*.go, n_*.go, t_*.go), each declaring
+    interfaces, so that generated in-package files named a_*, k_*, p_*, zz_* sort before, between
+    and after the sources."""
     pk = []
     for k in range(14):
         n = "f%02d" % k
         up = n.upper()
-        files = [{"name": n + ".go", "decls": [gen_iface(rng, up + "A"), gen_iface(rng, up + "B")]}]
-        if rng.random() < 0.5:
-            files.append({"name": "extra.go", "decls": [gen_iface(rng, up + "C")]})
+        files = [{"name": "c_%s.go" % n, "decls": [gen_iface(rng, up + "A")]},
+                 {"name": "n_%s.go" % n, "decls": [gen_iface(rng, up + "B")]}]
+        if rng.random() < 0.6:
+            files.append({"name": "t_%s.go" % n, "decls": [gen_iface(rng, up + "C")]})
         pk.append({"path": n, "name": n, "files": files})
     pk.append({"path": "wide", "name": "wide", "files": [
-        {"name": "wide.go", "decls": [gen_iface(rng, "W%02d" % k) for k in range(13)]},
-        {"name": "many.go", "decls": [gen_iface(rng, "Many", wide=True)]}]})
+        {"name": "c_wide.go", "decls": [gen_iface(rng, "W%02d" % k) for k in range(7)]},
+        {"name": "n_many.go", "decls": [gen_iface(rng, "Many", wide=True)]},
+        {"name": "t_wide.go", "decls": [gen_iface(rng, "W%02d" % k) for k in range(7, 13)]}]})
     for r, subs in (("r0", ["", "/s0", "/s1", "/s1/t0"]), ("r1", ["", "/s0"])):
         for sfx in subs:
             p = r + sfx
             n = p.split("/")[-1]
             tag = p.replace("/", "").upper()
-            pk.append({"path": p, "name": n, "files": [{"name": n + ".go", "decls": [gen_iface(rng, tag + "A")] + ([gen_iface(rng, tag + "B")] if rng.random() < 0.5 else [])}]})
+            pk.append({"path": p, "name": n, "files": [{"name": "c_%s.go" % n, "decls": [gen_iface(rng, tag + "A")]},
+                                                       {"name": "n_%s.go" % n, "decls": [gen_iface(rng, tag + "B")]}]})
     return pk
 
 
@@ -115,7 +121,12 @@ def cfg(**kw):
 PLACEMENTS = {
     "inpkg_test": dict(dir=("iface", ""), file=("fixed", "mocks_test.go"), pkgname=None),
     "inpkg_test2": dict(dir=None, file=("fixed", "zz_gen_test.go"), pkgname=None),
-    "inpkg": dict(dir=("iface", ""), file=("fixed", "zz_mock.go"), pkgname=("src",)),
+    "inpkg": dict(dir=("iface", ""), file=("fixed", "zz_mock.go"), pkgname=("src",)),               # after the sources
+    "inpkg_before": dict(dir=("iface", ""), file=("fixed", "a_mock.go"), pkgname=("src",)),        # before all sources
+    "inpkg_between": dict(dir=None, file=("fixed", "k_mock.go"), pkgname=None),                    # between c_*.go and n_*.go
+    "inpkg_between2": dict(dir=("iface", ""), file=("fixed", "p_mock.go"), pkgname=("src",)),      # between n_*.go and t_*.go
+    "inpkg_per_iface": dict(dir=("iface", ""), file=("iface", "k_", "_mock.go"), pkgname=None),    # several generated files between the sources
+    "other_pkg": None,                                                                               # into ANOTHER configured package's directory (filled in per package)
     "sub": dict(dir=("iface", "/mocks"), file=("fixed", "zz.go"), pkgname=("fixed", "mocks")),
     "sub_per_iface": dict(dir=("iface", "/mocks"), file=("iface", "zz_", ".go"), pkgname=("fixed", "mocks")),
     "shared": dict(dir=("fixed", "shared/all"), file=("pkg", "zz_", ".go"), pkgname=("fixed", "allmocks")),
@@ -124,7 +135,11 @@ PLACEMENTS = {
 
 
 def out_of_package(pl):
-    return pl in ("sub", "sub_per_iface", "shared", "shared_in_root")
+    return pl in ("sub", "sub_per_iface", "shared", "shared_in_root", "other_pkg")
+
+
+INPKG_NONTEST = ("inpkg", "inpkg_before", "inpkg_between", "inpkg_between2", "inpkg_per_iface")
+SORT_PREFIXES = ["a_", "k_", "p_", "zz_"]
 
 
 def gen_config(rng, tree, nested=False, formatter=None):
@@ -146,16 +161,26 @@ def gen_config(rng, tree, nested=False, formatter=None):
             continue                                       # discovered by recursion, never configured
         is_root = p in ("r0", "r1")
         if is_root:
-            pl = rng.choice(["sub", "inpkg", "inpkg_test", "sub_per_iface"])
+            pl = rng.choice(["sub", "inpkg", "inpkg_before", "inpkg_between", "inpkg_per_iface", "inpkg_test", "sub_per_iface"])
             tm = rng.choice(["testify", "matryer"])
         else:
-            pl = rng.choice(sorted(PLACEMENTS))
+            # half of the flat packages write non-test files next to their sources
+            pl = rng.choice(list(INPKG_NONTEST)) if rng.random() < 0.5 else rng.choice(sorted(PLACEMENTS))
+            if pl == "other_pkg" and not (p.startswith("f") and p != "f00"):
+                pl = "inpkg_between"
             tm = rng.choice(["testify", "testify", "matryer", "custom"])
         if formatter in ("noop", "gofmt") and tm == "matryer":
             tm = "testify"
         hist["placement"][pl] = hist["placement"].get(pl, 0) + 1
         hist["template"][tm] = hist["template"].get(tm, 0) + 1
-        c = cfg(**PLACEMENTS[pl])
+        if pl == "other_pkg":
+            # a lower-numbered flat package receives the file (it then imports this package on the
+            # rerun; higher -> lower only, so no import cycle), named so that it sorts between sources
+            tgt = "f%02d" % rng.randrange(int(p[1:]))
+            plc = dict(dir=("fixed", tgt), file=("pkg", "k_from_", ".go"), pkgname=("fixed", tgt))
+        else:
+            plc = PLACEMENTS[pl]
+        c = cfg(**plc)
         data = {}
         if is_root:
             c["rec"], c["all"] = True, True
@@ -198,12 +223,15 @@ def gen_config(rng, tree, nested=False, formatter=None):
                     if tm == "testify" and rng.random() < 0.5:
                         ic["data"] = {"unroll-variadic": rng.random() < 0.5}
                     ents = []
-                    if r > 0.6 and pl not in ("shared", "shared_in_root"):
+                    if pl in INPKG_NONTEST and rng.random() < 0.5:
+                        # a file of its own for this interface, sorting before / between / after the sources
+                        ic["file"] = ("fixed", "%s%s_own.go" % (rng.choice(SORT_PREFIXES), n))
+                    if r > 0.6 and pl not in ("shared", "shared_in_root", "other_pkg"):
                         # several configs for one interface: different files, different struct names
                         for e in range(rng.randint(2, 3)):
                             hist["configs_entries"] += 1
                             ec = cfg(structname="Mock{{.InterfaceName}}V%d" % e)
-                            base = PLACEMENTS[pl]["file"]
+                            base = plc["file"]
                             if base[0] == "fixed":
                                 ec["file"] = ("fixed", base[1].replace(".go", "_v%d.go" % e) if not base[1].endswith("_test.go") else base[1].replace("_test.go", "_v%d_test.go" % e))
                             else:
